@@ -232,6 +232,18 @@ void libxmp_far_release_module_extras(struct module_data *m)
 	m->extra = NULL;
 }
 
+/* The tempo and vibrato depth effects modify the module-wide state while
+ * playing: every player run starts from the values the file was loaded with. */
+void libxmp_far_reset_module_extras(struct module_data *m)
+{
+	struct far_module_extras *me = FAR_MODULE_EXTRAS(*m);
+
+	me->coarse_tempo = me->init_coarse_tempo;
+	me->fine_tempo = 0;
+	me->tempo_mode = 1;
+	me->vib_depth = 4;
+}
+
 void libxmp_far_extras_process_fx(struct context_data *ctx, struct channel_data *xc,
 			   int chn, uint8 note, uint8 fxt, uint8 fxp, int fnum)
 {
